@@ -36,7 +36,7 @@ RULE = (
 )
 EXHAUSTIVE_SUBSPACES = ["state compared after every single step of every history"]
 ASSUMPTIONS = ["re-entering a context object that is already active is excluded (the property says so)"]
-FLOOR = {"compile-derived-fresh": 1, "custom-rule-inactive": 1, "exc-exit-depth>=2": 1, "ctx-reused": 1, "op-on-earlier-compiled": 1, "nest-depth>=3": 1, "foreign-lookup": 1,
+FLOOR = {"compile-derived-fresh": 1, "custom-rule-inactive": 1, "custom-rule:integrate": 1, "custom-rule:multiply": 1, "custom-rule:conjugate": 1, "exc-exit-depth>=2": 1, "ctx-reused": 1, "op-on-earlier-compiled": 1, "nest-depth>=3": 1, "foreign-lookup": 1,
          "steps_checked": 500, "compile_events": 50, "threads": 1, "asyncio": 1}
 
 _events = []  # (compiler id, symbolic circuit id) in compile order (this thread only: histories are sequential)
@@ -65,10 +65,10 @@ class Boom(BaseException):
 
 
 def plan(tier, seed):
-    n = 70 if tier == "quick" else 900
+    n = 70 if tier == "quick" else 3600
     cases = [{"kind": "seq", "k": k, "seed": seed} for k in range(n)]
-    cases += [{"kind": "threads", "k": k, "seed": seed} for k in range(2 if tier == "quick" else 30)]
-    cases += [{"kind": "asyncio", "k": k, "seed": seed} for k in range(2 if tier == "quick" else 30)]
+    cases += [{"kind": "threads", "k": k, "seed": seed} for k in range(2 if tier == "quick" else 120)]
+    cases += [{"kind": "asyncio", "k": k, "seed": seed} for k in range(2 if tier == "quick" else 120)]
     return cases
 
 
@@ -159,7 +159,7 @@ def run_history(res: Result, rng, nsteps: int, tag: str):
     new_ctx()
     for step in range(nsteps):
         action = rng.choices(["new", "enter", "exit", "exc-exit", "compile", "recompile", "op", "lookup-foreign", "module-op", "compile-derived-fresh", "custom-rule"],
-                             weights=[2, 5, 4, 3, 6, 3, 8, 2, 5, 3, 2])[0]
+                             weights=[2, 5, 4, 3, 6, 3, 8, 2, 5, 3, 4])[0]
         sig.append(action)
         name = f"{tag} step {step} {action}"
         try:
@@ -291,32 +291,56 @@ def run_history(res: Result, rng, nsteps: int, tag: str):
                         record(ctx, c_, ctx.get_compiled_circuit(c_))
                 res.features.add("compile-derived-fresh")
             elif action == "custom-rule":
-                # a context owning its own conjugation rule must use it, active or not
-                from cirkit.symbolic.layers import LayerOperator, SumLayer
-                from cirkit.symbolic.operators import conjugate_sum_layer
-                from cirkit.symbolic.circuit import CircuitBlock
+                # a context owning its own rule for an operator must use it through every entry point,
+                # whether or not the context is the active one
+                import typing
+
+                from cirkit.symbolic import operators as OPS
+                from cirkit.symbolic.layers import CategoricalLayer, LayerOperator, PolynomialLayer, SumLayer
 
                 ctx = new_ctx()
+                a, b, kinds = rng.choice(bases)
+                which = rng.choice(["conjugate", "integrate", "multiply", "differentiate"])
+                if which == "differentiate" and "poly" not in kinds:
+                    which = "conjugate"
+                if which == "integrate" and "poly" in kinds:
+                    which = "multiply"
+                orig, lop, ltype = {
+                    "conjugate": (OPS.conjugate_sum_layer, LayerOperator.CONJUGATION, SumLayer),
+                    "integrate": (OPS.integrate_categorical_layer, LayerOperator.INTEGRATION, CategoricalLayer),
+                    "multiply": (OPS.multiply_sum_layers, LayerOperator.MULTIPLICATION, SumLayer),
+                    "differentiate": (OPS.differentiate_polynomial_layer, LayerOperator.DIFFERENTIATION, PolynomialLayer),
+                }[which]
                 calls = []
 
-                def my_conjugate_sum_layer(sl):
+                def my_rule(*args, **kwargs):
                     calls.append(1)
-                    return conjugate_sum_layer(sl)
+                    return orig(*args, **kwargs)
 
                 # real classes, not the strings `from __future__ import annotations` would leave
-                my_conjugate_sum_layer.__annotations__ = {"sl": SumLayer, "return": CircuitBlock}
-                ctx.add_operator_rule(LayerOperator.CONJUGATION, my_conjugate_sum_layer)
-                a, b, kinds = rng.choice(bases)
+                my_rule.__annotations__ = dict(typing.get_type_hints(orig))
+                ctx.add_operator_rule(lop, my_rule)
                 ca = ctx.compile(a)
                 record(ctx, a, ca)
                 inactive = all(ctx is not s_ for s_ in m.stack)
-                out = PL.conjugate(ca, ctx=ctx) if rng.random() < 0.5 else ctx.conjugate(ca)
+                use_module = rng.random() < 0.5
+                if which == "conjugate":
+                    out = PL.conjugate(ca, ctx=ctx) if use_module else ctx.conjugate(ca)
+                elif which == "integrate":
+                    out = PL.integrate(ca, ctx=ctx) if use_module else ctx.integrate(ca)
+                elif which == "multiply":
+                    cb = ctx.compile(b)
+                    record(ctx, b, cb)
+                    out = PL.multiply(ca, cb, ctx=ctx) if use_module else ctx.multiply(ca, cb)
+                else:
+                    out = PL.differentiate(ca, ctx=ctx) if use_module else ctx.differentiate(ca)
                 record(ctx, ctx.get_symbolic_circuit(out), out)
-                n_sum = sum(1 for l_ in a.layers if type(l_) is SumLayer)  # rules are looked up by exact type
-                if n_sum:
+                n_typ = sum(1 for l_ in a.layers if type(l_) is ltype)  # rules are looked up by exact type
+                if n_typ:
                     res.features.add("custom-rule" + ("-inactive" if inactive else ""))
-                if n_sum and len(calls) != n_sum:
-                    res.violate("context-rule-ignored", f"{name}: conjugate through a context that owns a conjugation rule did not use it (context active: {not inactive})")
+                    res.features.add("custom-rule:" + which)
+                if n_typ and (len(calls) != n_typ if which == "conjugate" else not calls):
+                    res.violate("context-rule-ignored", f"{name}: {which} through a context that owns a rule for {ltype.__name__} used it {len(calls)} times for {n_typ} such layers (context active: {not inactive}, via {'module function' if use_module else 'method'})")
                 if OPERATOR_REGISTRY.get() is not m.top_reg():
                     res.violate("active-registry-wrong", f"{name}: registry changed by an operator call")
             elif action == "lookup-foreign":
